@@ -585,6 +585,43 @@ def check_cli_surface(F, R, adt, only=None, inst="cli-flag"):
     return len(want)
 
 
+def check_initial_state(F, R, ctor, adt, expect, inst):
+    """The value a constructor (`Default::default`, `From::from`, `new`) returns starts in the documented state: on its path table every
+    listed field holds the listed constant (an int, a bool, `None`, an enum variant name, or — for a nested counter struct — all zeros).
+    `expect`: {field name: 0 | False | "None" | "Variant" | "zeros"}."""
+    from . import deep as D
+    info = F.adt(adt)
+    names = [f["name"] for f in info["variants"][0]["fields"]]
+    rows = D.Deep(F, ctor, max_paths=50, inline=False).run()
+    bad = None
+    if not rows or any(p.cut for p in rows):
+        bad = "empty path table or a loop"
+
+    def holds(v, want, depth=0):
+        if v[0] == "const" and isinstance(v[1], str) and depth < 2:
+            cb = F.body(v[1], ctor.crate)     # a named constant (`Stats::EMPTY`): what its initialiser evaluates to
+            if cb is not None:
+                crow = D.Deep(F, cb, max_paths=20).run()
+                return bool(crow) and all(holds(cp.ret, want, depth + 1) for cp in crow)
+        if want == "zeros":
+            return isinstance(v, tuple) and v and v[0] == "variant" and all(x == ("const", 0) for x in v[3]) and len(v[3]) > 0
+        if want == "None":
+            return D.is_variant(v, "std::option::Option", "None")
+        if isinstance(want, str):
+            return isinstance(v, tuple) and v and v[0] == "variant" and v[2] == want
+        return v == ("const", want)
+    for p in rows if bad is None else []:
+        agg = [x for x in D.subterms(p.ret) if D.is_variant(x, adt)]
+        if not agg or len(agg[0][3]) != len(names):
+            bad = f"a path returns {D.fmt(ctor, p.ret)[:60]}"
+            break
+        for f, want in expect.items():
+            v = agg[0][3][names.index(f)]
+            if not holds(v, want):
+                bad = f"`{f}` starts as {D.fmt(ctor, v)[:40]} (expected {want})"
+    R.check(bad is None, inst, ctor, f"{len(expect)} fields start in their documented state", f"`{ctor.short}` does not start in the documented state: {bad}")
+
+
 def check_builders_keep_cli(F, R, inst="builder-keeps-cli"):
     """Every `Cucumber` builder method (self -> Cucumber) hands the CLI options given by `with_cli()` on to the value it returns:
     the `cli` field of the result is `self.cli`, or is set explicitly from a parameter (`with_cli`, `with_default_cli`); it may be
